@@ -4,6 +4,7 @@
 (* and iteration (5.3.1).  Bit-exact and executable by TLC: words are pairs  *)
 (* of 16-bit halves (module Words).                                          *)
 EXTENDS Integers, Sequences, Words, Bytes
+LOCAL INSTANCE SequencesExt
 
 IV == << <<29568, 5743>>, <<18708, 45753>>, <<5924, 17111>>, <<55946, 1536>>,
          <<43375, 12476>>, <<5681, 14506>>, <<58253, 61005>>, <<45307, 3662>> >>
@@ -52,8 +53,9 @@ PadTail(n) == LET r == n % 64
               IN <<128>> \o Zeros(z) \o BitLen8(n)
 Pad(m) == m \o PadTail(Len(m))
 
-RECURSIVE Absorb(_, _)
-Absorb(v, data) == IF Len(data) = 0 THEN v ELSE Absorb(CF(v, Take(data, 64)), Drop(data, 64))
+(* iteration over the blocks with FoldLeft (iterative, Java-backed): a RECURSIVE loop nests one lazy *)
+(* argument per block and overflows the stack on inputs of a hundred blocks and more                 *)
+Absorb(v, data) == FoldLeft(LAMBDA c, i : SubSeq(CF(c, SubSeq(data, 64 * i - 63, 64 * i)), 1, 8), v, [i \in 1..(Len(data) \div 64) |-> i])
 
 StateBytes(v) == BytesOf(v)
 Hash(m) == StateBytes(Absorb(IV, Pad(m)))
